@@ -121,7 +121,13 @@ let gmap_ops = [| "add_node"; "remove_node"; "add_edge"; "remove_edge"; "clear";
                   "contains_node"; "contains_edge"; "edge_weight"; "neighbors"; "edges_directed"; "to_index"; "into_graph" |]
 let all_tags = [| "bool"; "err"; "panic"; "idx"; "unit"; "counts"; "row"; "wrow"; "erefs"; "nw"; "OUT-OF-FUEL"; "nat";
                   "notsorted"; "none"; "pair"; "eidxs"; "nodes"; "out"; "in"; "has"; "limit"; "some";
-                  "nb"; "nbo"; "nbi"; "ed"; "edo"; "edi"; "gn"; "ge" |]
+                  "nb"; "nbo"; "nbi"; "ed"; "edo"; "edi"; "gn"; "ge"; "el"; "nbu"; "exto"; "exti"; "elimit"; "oob";
+                  "walk"; "econn"; "missed"; "vac"; "free" |]
+let graph_ops = [| "add_node"; "try_add_node"; "add_edge"; "try_add_edge"; "update_edge"; "try_update_edge";
+                   "remove_node"; "remove_edge"; "reverse"; "clear"; "clear_edges"; "retain_nodes"; "retain_edges";
+                   "extend_with_edges"; "filter_map"; "into_edge_type"; "set_node_weight"; "set_edge_weight";
+                   "node_weight"; "edge_weight"; "edge_endpoints"; "find_edge"; "find_edge_undirected";
+                   "edges_connecting"; "first_edge"; "next_edge"; "walker"; "map" |]
 
 let () =
   let prop = Sys.argv.(1) and infile = Sys.argv.(2) and outfile = Sys.argv.(3) in
@@ -129,6 +135,7 @@ let () =
   let oc = open_out outfile in
   (match prop with
    | "C19" -> C19.run_file lines oc
+   | "C01" -> run_generic graph_ops all_tags GraphIO.run_case lines oc
    | "C03" -> run_generic gmap_ops all_tags GraphMapM.run_case lines oc
    | "C04" -> run_generic mg_ops mg_tags MatrixM.run_case lines oc
    | "C05csr" -> run_generic csr_ops csr_tags CsrM.run_case lines oc
